@@ -153,13 +153,14 @@ func nilDerefsPathSensitive(fn *ssa.Function, params []*ssa.Parameter) map[*ssa.
 		}
 	}
 	type item struct {
-		b *ssa.BasicBlock
-		s state
+		b    *ssa.BasicBlock
+		from *ssa.BasicBlock // the predecessor this visit came from (selects phi edges)
+		s    state
 	}
 	out := map[*ssa.Parameter][]ssa.Instruction{}
 	reported := map[ssa.Instruction]bool{}
 	seen := map[item]bool{}
-	work := []item{{fn.Blocks[0], state{}}}
+	work := []item{{fn.Blocks[0], nil, state{}}}
 	derefsIn := func(ins ssa.Instruction, p *ssa.Parameter) bool {
 		switch x := ins.(type) {
 		case *ssa.FieldAddr:
@@ -205,7 +206,25 @@ func nilDerefsPathSensitive(fn *ssa.Function, params []*ssa.Parameter) map[*ssa.
 		}
 		last := it.b.Instrs[len(it.b.Instrs)-1]
 		if ifi, ok := last.(*ssa.If); ok && len(it.b.Succs) == 2 {
-			if bo, ok := ifi.Cond.(*ssa.BinOp); ok && (bo.Op == token.EQL || bo.Op == token.NEQ) {
+			cond := ifi.Cond
+			// `case a == nil && b == nil:` is built as a phi of the two tests: take the edge of the predecessor we came from
+			if phi, ok := cond.(*ssa.Phi); ok && phi.Block() == it.b && it.from != nil {
+				for pi, pred := range it.b.Preds {
+					if pred == it.from {
+						cond = phi.Edges[pi]
+						break
+					}
+				}
+			}
+			if k, ok := cond.(*ssa.Const); ok && k.Value != nil && (k.Value.String() == "true" || k.Value.String() == "false") {
+				si := 0
+				if k.Value.String() == "false" {
+					si = 1
+				}
+				work = append(work, item{it.b.Succs[si], it.b, it.s})
+				continue
+			}
+			if bo, ok := cond.(*ssa.BinOp); ok && (bo.Op == token.EQL || bo.Op == token.NEQ) {
 				var pv ssa.Value
 				if isNilConst(bo.Y) {
 					pv = bo.X
@@ -224,14 +243,14 @@ func nilDerefsPathSensitive(fn *ssa.Function, params []*ssa.Parameter) map[*ssa.
 						}
 						ns := it.s
 						ns[i] = want
-						work = append(work, item{succ, ns})
+						work = append(work, item{succ, it.b, ns})
 					}
 					continue
 				}
 			}
 		}
 		for _, succ := range it.b.Succs {
-			work = append(work, item{succ, it.s})
+			work = append(work, item{succ, it.b, it.s})
 		}
 	}
 	return out
